@@ -20,7 +20,8 @@ ATTACH = ['', ' ', '\t', '\n', ' \n ', '  \t']
 DETACH = ['\n\n', '.', ' \n \n', '.x', '%c\n']
 BODIES_BRACE = ['x', 'a]b', 'a[b', '{y}', '', 'p q']
 BODIES_BRACKET = ['o', 'a{]}b', '']
-CONTEXTS = ['%s', '\\begin{a}%s\\end{a}', '{%s}', '$%s$', 'pre %s', '\\begin{itemize}\\item %s\\end{itemize}']
+CONTEXTS = ['%s', '\\begin{a}%s\\end{a}', '{%s}', '$%s$', 'pre %s', '\\begin{itemize}\\item %s\\end{itemize}', '$$%s$$',
+            '\\[%s\\]', '\\begin{equation}%s\\end{equation}', '$\\textbf{%s}$']
 
 
 def find_cmd(node, name):
@@ -83,19 +84,16 @@ def c09_check(case):
     got = [('[' if isinstance(a, BracketGroup) else '{', ''.join(str(c) for c in a._contents)) for a in cmd.args]
     # a bracket group after a brace group attaches only when it follows directly (second round of read_args)
     if got != exp:
-        # the documented form  {..}[..]{..}  (directly adjacent) is described by the contract and not judged
-        if not any(k == '[' for k, _ in groups):
-            out.append(('argument-run', 'arguments of \\foo in %r are %r, the separators allow exactly %r' % (s, got, exp)))
-        elif [g for g in got if g[0] == '['] != [g for g in exp if g[0] == '['][:len([g for g in got if g[0] == '['])] or \
-                len(got) > len(groups):
-            out.append(('argument-run', 'arguments of \\foo in %r are %r, the separators allow exactly %r' % (s, got, exp)))
+        out.append(('argument-run', 'arguments of \\foo in %r are %r, the separators allow exactly %r' % (s, got, exp)))
     return out
 
 
 # ---------------------------------------------------------------------- C10
-PAYLOAD = ['{', '}', '[', ']', '$', '\\', '\\begin{a}', '\\end{a}', '\\item', '%', ' x', '$$', '\\[']
+PAYLOAD = ['{', '}', '[', ']', '$', '\\', '\\begin{a}', '\\end{a}', '\\item', '%', ' x', '$$', '\\[', '\\end{verbatim}',
+           '\\end{lstlisting}', '\\begin{verbatim}', ']\\section{q}', '}\\end{Verbatim}{']
 C10_CTX = ['a %s\nb', '\\begin{a}x%s\n\\end{a}', '\\x{a%s\nb}', '\\x[a%s\nb]', '{a%s\nb}', '$a%s\nb$', '\\[a%s\nb\\]',
-           '\\begin{itemize}\\item a%s\n\\item b\\end{itemize}', 'end %s']
+           '\\begin{itemize}\\item a%s\n\\item b\\end{itemize}', 'end %s', 'a\\\\[1pt %s\nb', '{a\\\\*[2pt %s\nb]}',
+           '\\begin{foo}x%s\n\\end{foo}']
 
 
 def shape(e):
@@ -188,7 +186,9 @@ MATHD = [('$', '$', TexMathModeEnv), ('$$', '$$', TexDisplayMathModeEnv), ('\\('
 MBODY = ['x', 'a+b', '\\alpha', '\\frac{a}{b}', '\\$', '(a', 'a)', '[a', 'a]', ')(', '\\left[x\\right)', '\\big(y', 'a \\in [0,1)',
          '\\cup [', 'x\\cap(', '{a}', '\\infty]', '\\notin (', 'a_{[}', 'A_{x\\in[0,1)}', 'y^{\\cup[a}', 'z_{\\cap[}',
          'u\\notin[a', '\\infty[']
-M_CTX = ['%s', 'pre %s post', '\\begin{a}%s\\end{a}', '{%s}', '\\x{%s}', '\\begin{itemize}\\item %s\\end{itemize}']
+M_CTX = ['%s', 'pre %s post', '\\begin{a}%s\\end{a}', '{%s}', '\\x{%s}', '\\begin{itemize}\\item %s\\end{itemize}',
+         '\\newcommand{\\R}{%s}', '\\renewcommand{\\R}[1]{a %s}', '\\begin{verbatim}$ ls\\end{verbatim} %s',
+         '\\begin{lstlisting}my $x\\end{lstlisting}\n%s']
 MENVS = ['equation', 'align*', 'gather', 'math', 'displaymath', 'eqnarray*', 'split']
 
 
@@ -211,6 +211,8 @@ def c12_check(case):
         return out
     if kind[0] == 'env' and body[:1] in '[{':
         return out
+    if kind[0] == 'env' and 'command{' in ctx:
+        return out          # inside a definition \\begin/\\end open nothing (C02): only the delimiter kinds apply there
     try:
         soup = TexSoup(s)
     except Exception as e:
